@@ -10,6 +10,7 @@ import (
 	"net/http/httptest"
 	"os"
 	"path/filepath"
+	"sync"
 	"sync/atomic"
 	"time"
 
@@ -195,11 +196,15 @@ func (w *srvWorld) httpDo(method, target string, body []byte) (int, []byte) {
 	rec := httptest.NewRecorder()
 	pw := &probingWriter{ResponseRecorder: rec, w: w}
 	w.S.VerifServeHTTP(pw, req)
+	heldWriteMu.Lock()
 	if pw.held > w.HeldWrite {
 		w.HeldWrite, w.HeldWriteAt = pw.held, method+" "+target
 	}
+	heldWriteMu.Unlock()
 	return rec.Code, rec.Body.Bytes()
 }
+
+var heldWriteMu sync.Mutex
 
 // probingWriter counts the response bytes a handler writes while a server mutex is held. net/http buffers 4 KiB
 // per response; anything beyond that goes to the socket inside Write and blocks for as long as the client does
